@@ -330,3 +330,5 @@ V("return-value-dropped", "C01", "pyteal/compiler/compiler.py", "            ret
 V("new-subroutines-skip-known", "C01", "pyteal/compiler/compiler.py", "    newSubroutines = referencedSubroutines - subroutine_start_blocks.keys()", "    newSubroutines = referencedSubroutines - subroutine_start_blocks.keys() - set(subroutineGraph.keys())", None, "quiet")
 V("call-graph-not-recorded", "C01", "pyteal/compiler/compiler.py", "    if currentSubroutine is not None:\n        subroutineGraph[currentSubroutine] = referencedSubroutines", "    if currentSubroutine is not None and referencedSubroutines:\n        subroutineGraph[currentSubroutine] = referencedSubroutines", "R01.14")
 V("twin-compile-subroutine-rename", "C01", "pyteal/compiler/compiler.py", "    newSubroutines = referencedSubroutines - subroutine_start_blocks.keys()\n    for subroutine in sorted(newSubroutines, key=lambda subroutine: subroutine.id):", "    pending = referencedSubroutines - subroutine_start_blocks.keys()\n    for subroutine in sorted(pending, key=lambda subroutine: subroutine.id):", None, "quiet")
+VARIANTS.append({"name": "twin-named-ints-from-sdk", "prop": "C08", "edits": [("pyteal/compiler/constants.py", "from algosdk import encoding\n", "from algosdk import encoding\nfrom algosdk.transaction import OnComplete as SdkOnComplete\n"), ("pyteal/compiler/constants.py", "    \"CloseOut\": 2,", "    \"CloseOut\": int(SdkOnComplete.CloseOutOC),")], "rule": None, "expect": "quiet"})
+VARIANTS.append({"name": "named-ints-from-sdk-wrong-member", "prop": "C12", "edits": [("pyteal/compiler/constants.py", "from algosdk import encoding\n", "from algosdk import encoding\nfrom algosdk.transaction import OnComplete as SdkOnComplete\n"), ("pyteal/compiler/constants.py", "    \"CloseOut\": 2,", "    \"CloseOut\": int(SdkOnComplete.ClearStateOC),")], "rule": "R12.2", "expect": "fire"})
